@@ -498,6 +498,9 @@ TEMPLATES = [
         ("B", 3, ["b"]), ("B", FIX_P, ["a"])]),
 ]
 NTPL = len(TEMPLATES)
+# a second query on the SAME grammar object, after the symbolic word: contains() must not depend on
+# earlier queries (the chart states start from the productions' own feature structures)
+PROBES = [["b", "b"], ["b"], ["a", "b"], ["b", "b"], ["a", "b"], ["a"]]
 ANN_TEXT = ["", "[N=s]", "[N=p]", "[N=?x]"]
 I4 = Tuple[int, int, int, int]
 
@@ -617,6 +620,9 @@ def _fcfg_oracle(args, obs):
         fails = [chx.exc_failure("build", obs["built"], tags=tags)]
     else:
         fails = _membership_failures("FCFG.contains", obs["res"], want, want_ne, tags, word)
+        probe = PROBES[tpl]
+        fails += _membership_failures("FCFG.contains", obs["res2"], O.cfg_contains(plain, start, probe),
+                                      O.cfg_contains(plain_ne, start_ne, probe), tags + ["second_call"], probe)
     free = O.cfg_contains(O.strip_features(tp), "S", word)
     note = {"template": TEMPLATES[tpl][0], "grammar": _grammar_text(prods, route == 2), "route": route,
             "word": word, "reference": want, "feature_free_reference": free}
@@ -679,9 +685,10 @@ def c18_fcfg(tpl: int, ann: I4, w: Tuple[int, int, int], wlen: int, route: int) 
     raw = (tpl, ann, w, wlen, route)
     chx.enter("c18_fcfg", raw)
     built = chx.guarded(_build_fcfg, prods, rt)
-    obs = {"built": built, "res": None}
+    obs = {"built": built, "res": None, "res2": None}
     if built[0] == "ok":
-        obs = {"built": ("ok",), "res": chx.guarded(built[1].contains, word)}
+        obs = {"built": ("ok",), "res": chx.guarded(built[1].contains, word),
+               "res2": chx.guarded(built[1].contains, PROBES[tp])}
     return chx.judge("C18", "c18_fcfg", raw, (tp, an, rt, prods, word), obs, _fcfg_oracle)
 
 
